@@ -48,6 +48,12 @@ theorem scalar_unique (B : G) (hord : ∀ n : ℕ, n • B = 0 → ell ∣ n) (s
     have : s - t = 0 := Nat.eq_zero_of_dvd_of_lt hd this
     omega
 
+/-- if B has order exactly ℓ, equal multiples of B have congruent scalars -/
+theorem nsmul_eq_imp_mod_eq (B : G) (hB : ell • B = 0) (hord : ∀ n : ℕ, n • B = 0 → ell ∣ n) (m n : ℕ)
+    (h : m • B = n • B) : m % ell = n % ell :=
+  scalar_unique B hord _ _ (Nat.mod_lt _ (by decide)) (Nat.mod_lt _ (by decide))
+    (by rw [mod_nsmul B hB, mod_nsmul B hB, h])
+
 end algebra
 
 /-- the executable record `g` computes in the commutative group structure on `G`:
